@@ -332,7 +332,7 @@ impl<'de> Deserialize<'de> for Image {
             {
                 let mut size: Option<Size> = None;
                 let mut data = Vec::new();
-                let mut channels = 3;
+                let mut channels: usize = 3;
                 while let Some(key) = map.next_key::<Cow<'de, str>>()? {
                     match key.as_ref() {
                         "data" => {
@@ -366,13 +366,15 @@ impl<'de> Deserialize<'de> for Image {
                         "missing size".to_owned(),
                     )));
                 };
-                let expected_size = channels * size.height * size.width;
+                let expected_size = channels
+                    .checked_mul(size.height)
+                    .and_then(|size_bytes| size_bytes.checked_mul(size.width));
                 let data_size = data.len();
-                if data_size != expected_size {
+                if Some(data_size) != expected_size {
                     return Err(de::Error::custom(Error::ParseError(
                         "Image",
                         format!(
-                            "data field has incorrect size {data_size} exepcted {expected_size}"
+                            "data field has incorrect size {data_size} exepcted {expected_size:?}"
                         ),
                     )));
                 }
